@@ -214,7 +214,7 @@ def random_cases(ctx, n, start_cid, maxobjs):
                 continue
             f = rng.randrange(nfam)
             seed, kind = fams[f]
-            size = int(2 ** rng.uniform(0, 18.2)) if rng.random() < 0.8 else rng.choice([0, 15, 16, 2047, 2048, 65535, 65536, 65537])
+            size = int(2 ** rng.uniform(0, 18.1)) if rng.random() < 0.8 else rng.choice([0, 15, 16, 2047, 2048, 65535, 65536, 65537])
             if searching and f != 0 and size > 1500:
                 size = rng.randint(0, 1500)
             recipe = [[kind, seed, size]]
@@ -479,7 +479,7 @@ def run(ctx):
     idump = os.path.join(ctx.scratch, "idx")
     gdump = os.path.join(ctx.scratch, "gitsc")
     wplan = ([("q", "PackFmtWriter_q.cfg", 13), ("q3", "PackFmtWriter_q3.cfg", 13), ("dup", "PackFmtWriter_dup.cfg", 6)] if quick else
-             [("t3", "PackFmtWriter_t3.cfg", 14), ("t4", "PackFmtWriter_t4.cfg", 9), ("rows", "PackFmtWriter_rows.cfg", 13),
+             [("t3", "PackFmtWriter_t3.cfg", 6), ("t4", "PackFmtWriter_t4.cfg", 9), ("rows", "PackFmtWriter_rows.cfg", 13),
               ("q", "PackFmtWriter_q.cfg", 3), ("dup", "PackFmtWriter_dup.cfg", 1)])
     futs = {}
     for nm, static, mod in wplan:
